@@ -61,6 +61,11 @@ def handle : List String → String
       let ua := match hopUA stackOrder c rs h with | none => "-" | some v => hexOfBytes v
       s!"ok {ua} {hexList (hopAuthorization stackOrder c rs h)}"
     | _, _, _ => "bad-op"
+  | ["connecthead", rules, m] =>
+    -- header of the CONNECT relayed to an upstream proxy (both passes of the connect list)
+    match decodeRules rules, decodeMap m with
+    | some rs, some h => s!"ok {encodeMap (connectHeadMap rs h)}"
+    | _, _ => "bad-op"
   | ["applies", l, m] =>
     let l? : Option RuleList := match l with
       | "header" => some .header | "connect-header" => some .connectHeader
